@@ -29,6 +29,7 @@ RestrVariant(v) == CASE v = 0 -> <<Ty("user")>>
                      [] v = 1 -> <<Ty("user"), Wi("user"), WithC(Us("doc", "a"), "c1"), WithC(Wi("user"), "c1")>>
                      [] v = 2 -> <<WithC(Ty("user"), "c1"), Us("doc", "b")>>
 PlainRel(n, rw, restr) == [name |-> n, module |-> "", file |-> "", rw |-> rw, restr |-> restr]
+\* (the expression of variant 2 spans two lines, the continuation line indented by four blanks: the DSL carries it verbatim)
 C1 == [name |-> "c1", module |-> "", file |-> "",
        params |-> <<[name |-> "x", ty |-> "TYPE_NAME_INT", elem |-> ""], [name |-> "ys", ty |-> "TYPE_NAME_LIST", elem |-> "TYPE_NAME_STRING"],
                     [name |-> "m", ty |-> "TYPE_NAME_MAP", elem |-> "TYPE_NAME_BOOL"]>>,
@@ -39,7 +40,7 @@ WrapTree(t, v) ==
                 [name |-> "doc", module |-> "", file |-> "",
                  rels |-> << PlainRel("a", [k |-> "this"], <<Ty("user")>>), PlainRel("b", [k |-> "this"], <<Ty("user")>>),
                              PlainRel("p", [k |-> "this"], <<Ty("doc")>>), PlainRel("x", t, RestrVariant(v)) >>] >>,
-   conds |-> IF v = 0 THEN <<>> ELSE <<C1>>]
+   conds |-> IF v = 0 THEN <<>> ELSE IF v = 1 THEN <<C1>> ELSE <<[C1 EXCEPT !.expr = "x < 10 &&\n    ys[0] == \"a\""]>>]
 
 \* a short deterministic key of a tree (used as record id and to rotate the restriction variants)
 RECURSIVE Key(_)
@@ -70,8 +71,15 @@ AttrModel(c) ==    \* c = [t1, t2, r1, r2, r3, c1, c2] indices into AttrPool
                     rels |-> << At(PlainRel("c", [k |-> "this"], <<Ty("alpha")>>), c.r1),
                                 At(PlainRel("a", [k |-> "union", ch |-> <<[k |-> "cu", rel |-> "c"], [k |-> "this"]>>], <<Ty("alpha"), WithC(Wi("alpha"), "k2")>>), c.r2),
                                 At(PlainRel("b", [k |-> "ttu", rel |-> "c", ts |-> "a"], <<>>), c.r3) >>], c.t1),
-                At([name |-> "alpha", module |-> "", file |-> "", rels |-> <<>>], c.t2) >>,
-   conds |-> << At([name |-> "k2", module |-> "", file |-> "", params |-> <<[name |-> "b", ty |-> "TYPE_NAME_STRING", elem |-> ""], [name |-> "a", ty |-> "TYPE_NAME_TIMESTAMP", elem |-> ""]>>, expr |-> "a > timestamp(b)"], c.c1),
+                At([name |-> "alpha", module |-> "", file |-> "", rels |-> <<>>], c.t2) >>
+            \o (IF c.c1 # c.c2 \/ c.r1 # c.r3 THEN <<>> ELSE <<
+                \* (in a slice of the universe only: it is expensive to print) a type with 14 relations, two of them contributed by an extension (sorting more than 12 elements takes another code path in Go)
+                At([name |-> "big", module |-> "", file |-> "",
+                    rels |-> [i \in 1..14 |-> LET nm == <<"owner", "guest", "commenter", "viewer", "editor", "approver", "auditor", "manager", "reader", "writer", "admin", "member", "notary", "counsel">>[i]
+                                              IN At(PlainRel(nm, [k |-> "this"], <<Ty("alpha")>>), IF i > 12 THEN c.r2 ELSE IF i % 2 = 0 THEN c.r1 ELSE c.t2)]], c.t1) >>),
+   conds |-> << At([name |-> "k2", module |-> "", file |-> "", params |-> <<[name |-> "b", ty |-> "TYPE_NAME_STRING", elem |-> ""], [name |-> "a", ty |-> "TYPE_NAME_TIMESTAMP", elem |-> ""], [name |-> "userId", ty |-> "TYPE_NAME_STRING", elem |-> ""],
+                                                                              [name |-> "Zone", ty |-> "TYPE_NAME_INT", elem |-> ""], [name |-> "userid", ty |-> "TYPE_NAME_BOOL", elem |-> ""], [name |-> "user_ip", ty |-> "TYPE_NAME_IPADDRESS", elem |-> ""]>>,
+                    expr |-> "a > timestamp(b) &&\n    Zone < 3"], c.c1),
                 At([name |-> "k1", module |-> "", file |-> "", params |-> <<[name |-> "ip", ty |-> "TYPE_NAME_IPADDRESS", elem |-> ""]>>, expr |-> "ip.in_cidr(\"10.0.0.0/8\")"], c.c2) >>]
 AttrChoices == [t1 : TypeAttrs, t2 : TypeAttrs, r1 : RelAttrs, r2 : RelAttrs, r3 : RelAttrs, c1 : CondAttrs, c2 : CondAttrs]
 AttrId(c) == ToString(c.t1) \o ToString(c.t2) \o ToString(c.r1) \o ToString(c.r2) \o ToString(c.r3) \o ToString(c.c1) \o ToString(c.c2)
